@@ -19,7 +19,7 @@ def gen_calendars(rnd, tier):
     for f in files:
         b = open(f, 'rb').read()
         if 0 < len(b) <= 6000: cals.append(('file:' + os.path.basename(f), b))
-    base = [b'BEGIN:VCALENDAR', b'VERSION:2.0', b'X-ECHS-MAIL-OUT:1', b'BEGIN:VEVENT', b'UID:u-fold@example', b'SUMMARY:echo one two three four five six seven',
+    base = [b'BEGIN:VCALENDAR', b'VERSION:2.0', b'X-ECHS-MAIL-OUT:1', b'X-ECHS-SETUID:alice', b'X-ECHS-SETGID:staff', b'X-ECHS-OWNER:carol', b'BEGIN:VEVENT', b'UID:u-fold@example', b'SUMMARY:echo one two three four five six seven',
             b'LOCATION:/tmp', b'DESCRIPTION:some\\, description\; with \\\\ escapes\\nand newline', b'ATTENDEE:mailto:a@example.com', b'ATTENDEE:mailto:b@example.com',
             b'DTSTART:20300101T000000Z', b'DURATION:PT5M', b'RRULE:FREQ=MONTHLY;BYMONTHDAY=1,15;COUNT=9', b'EXDATE:20300115T000000Z', b'X-ECHS-OFILE:/tmp/out', b'X-ECHS-UMASK:0027',
             b'END:VEVENT', b'BEGIN:VEVENT', b'UID:u-second', b'SUMMARY:true', b'DTSTART;VALUE=DATE:20300201', b'RRULE:FREQ=YEARLY', b'END:VEVENT', b'END:VCALENDAR']
